@@ -719,7 +719,27 @@ func (ex *Exec) applyContract(st *State, site ssa.CallInstruction, sel string, c
 	c.old = old
 	for i := range con.Ensures {
 		c.clause = &con.Ensures[i]
-		st.assume(ex.safeFormula(c, con.Ensures[i].Text))
+		// a postcondition that speaks about the callee's locals or ghosts it cannot name here
+		// (e.g. parseTokens' `len(stack) == 0`) is simply not available to the caller
+		var g Term
+		usable := func() (ok bool) {
+			defer func() {
+				if r := recover(); r != nil {
+					if _, isSpec := r.(specError); isSpec {
+						ok = false
+						return
+					}
+					panic(r)
+				}
+			}()
+			g = c.Formula(con.Ensures[i].Text)
+			return true
+		}()
+		if !usable {
+			ex.note("postcondition %s of %s is not expressible at this call site and is not used", con.Ensures[i].Label, sel)
+			continue
+		}
+		st.assume(g)
 	}
 	ex.flushFrames(st)
 	return results
